@@ -586,6 +586,8 @@ def warping_paths_affinity(s1, s2, window=None, only_triu=False,
         dtw[0, i] = 0
     for i in range(psi_1b + 1):
         dtw[i, 0] = 0
+    if s.penalty is None:
+        s.penalty = 0
     i1 = 0
     for i in range(r):
         i0 = i
